@@ -259,6 +259,11 @@ def exec_set_val(sess: Session, op: dict, step: int) -> Effect:
         eff.outcome = 'raised'
         if expect_reject and isinstance(e, ValueError):
             eff.fault = 'F6_cost_rejection'
+            after_rej = _read_values(node)
+            for k in ('number_per', 'number_total', 'currency'):
+                if not _val_eq(after_rej.get(k), vals_before.get(k)):
+                    eff.v('C09', 'cost_group_after_rejection', step, f'rejected {m.name} = {v!r}: {k} read {vals_before.get(k)!r} before and {after_rej.get(k)!r} after the refusal')
+                    break
             return eff
         if op.get('fault') and op['fault'] != 'F6_cost_rejection':
             eff.fault = op['fault']
@@ -971,9 +976,8 @@ def _spacing_run_ok(toks: list, idx: dict, node: Any, run: tuple, side: str) -> 
     if any(p is None for p in pos):
         return 'returned a token that is not in the store'
     if any(b != a + 1 for a, b in zip(pos, pos[1:])):
-        gaps_ok = all(all(not toks[j].raw_text for j in range(a + 1, b)) for a, b in zip(pos, pos[1:]))
-        if not gaps_ok or any(b <= a for a, b in zip(pos, pos[1:])):
-            return 'returned tokens are not a contiguous ordered run'
+        # strictly consecutive: a zero-width mark inside the run would be destroyed by the setter's splice
+        return 'returned tokens are not a contiguous ordered run'
     if side == 'before':
         edge = idx.get(id(node.first_token))
         if edge is None:
@@ -1030,8 +1034,8 @@ def exec_spacing(sess: Session, op: dict, step: int) -> Effect:
         return eff
     bad = _spacing_run_ok(toks, idx, node, run, side)
     if bad:
+        # recorded, but the operation goes on: what the write then does to the tree is C05's business
         eff.v('C17', 'read_run', step, f'{type(node).__name__}.raw_spacing_{side}: {bad}')
-        return eff
     if text != text_of(list(run)):
         eff.v('C17', 'read_text', step, f'spacing_{side} {text!r} is not the text of raw_spacing_{side}')
     if op.get('read_only'):
